@@ -131,7 +131,7 @@ def cases_for(tier):
     if tier == "thorough":
         return ol.lattice([5, 6, 7, 8, 9, 11, 13, 17], [4, 8, 12, 16, 20, 24, 32], "geo,A,chain", tier,
                           cycle_offsets=(0, 1, 2, 3), extra={"tlist": "1,3"})
-    return ol.lattice([5, 6, 7, 8, 9, 11], [4, 8, 12, 16], "geo,A,chain", tier, extra={"tlist": "1,3"})
+    return ol.lattice([5, 6, 7, 8, 9, 11], [4, 8, 12, 16], "geo,A,chain", tier, cycle_offsets=(0, 1), extra={"tlist": "1,3"})
 
 
 def run(tier, cases=None, rep=None):
